@@ -12,10 +12,11 @@ Open Scope Z_scope.
 
 Definition default_max_response_size := 1048576.
 
-(* engine.py l.224-226 passes the header value on; session.py l.218 `if max_response_size:` ignores 0 *)
+(* engine.py l.224-226 passes the header value on; session.py l.218 `if max_response_size is not None:`
+   (after the repair 0ad0134 a requested size of 0 is honoured like any other) *)
 Definition effective_max (m : option Z) : Z :=
   match m with
-  | Some v => if v =? 0 then default_max_response_size else v
+  | Some v => v
   | None => default_max_response_size
   end.
 
